@@ -7,8 +7,10 @@ exhaustively for every list up to length 2 over the full alphabet, by simulation
 thorough tier, exhaustively over a reduced alphabet) for lengths 3 and 4; (3) the Go runner
 (`vh rv-replay`) expands each value class into concrete CBOR values, calls
 protocol.ParseDeviceRvInfo / ParseOwnerRvInfo under recover(), projects the RvDirective to the
-abstract record and compares it with the expectation of the specification; a totality-only pass
-feeds random instruction lists.
+abstract record and compares it with the expectation of the specification; in addition the
+specification's MalformedIgnored property is applied to the library directly (removing an instruction
+whose value is malformed / of the wrong type / empty must not change the library's result), which
+names the instruction that was misread; a totality-only pass feeds random instruction lists.
 
 Oracle (DESIGN 3 C20 "O"): judged are valid / boundary values (must take effect as the tables say)
 and malformed CBOR / wrong type / empty values (must be ignored). Type-correct but out-of-range
@@ -35,8 +37,9 @@ def run(ctx):
     ctx.build_vh()
 
     # 1. design level: the specification's own properties
-    ctx.model_check("RvInfo", "RvInfo_MC.cfg", timeout=900)
-    if not quick:
+    if quick:
+        ctx.model_check("RvInfo", "RvInfo_MC.cfg", timeout=900)
+    else:   # (the state space of RvInfo_MC.cfg is checked by the RvInfo_Gen3.cfg run below)
         ctx.model_check("RvInfo", "RvInfo_MC_big.cfg", timeout=2400)
         ctx.model_check("RvInfo", "RvInfo_MC4.cfg", timeout=1200)
 
@@ -81,13 +84,14 @@ def run(ctx):
     with open(rpath) as f:
         rep = json.load(f)
 
-    # 3. verdicts: shortest witnesses first; a longer list whose instructions include those of an
-    # already reported finding on the same field is the same finding
+    # 3. verdicts: shortest witnesses first. "misread|..." keys name the must-be-ignored instruction that
+    # took effect; a "mismatch|..." key names a combination of instructions: a longer combination that
+    # includes the instructions of an already reported finding on the same field is the same finding
     accepted, subsumed = [], 0
     for fd in rep["findings"]:
         group = ADDR.get(fd.get("field"), fd.get("field"))
         ds = set(fd["descs"])
-        if fd["kind"] == "mismatch" and any(g == group and d <= ds for (g, d) in accepted):
+        if fd["key"].startswith("mismatch|") and any(g == group and d <= ds for (g, d) in accepted):
             subsumed += 1
             continue
         if fd["kind"] == "mismatch":
